@@ -77,11 +77,27 @@ def expected_transition(sname, before, regime, inner):
     return {'radius': radius, 'down': down, 'damping': 1.0 / radius}
 
 
-def case_lm(H, sname, mk_strategy, reject, ncalls, raise_at=None):
+def true_loss(mod, p, y):
+    """the robust loss with the trivial kernel, from the model's outputs themselves (NOT through the optimizer's RobustModel):
+    the sum over ALL residual blocks of the squared norm"""
+    with torch.no_grad():
+        out = mod(p)
+    outs = out if isinstance(out, (tuple, list)) else (out,)
+    tot = 0
+    for o in outs:
+        o = o.tensor() if isinstance(o, pp.LieTensor) else o
+        r = o - y if y is not None else o
+        tot = tot + r.square().sum()
+    return tot.reshape(1)
+
+
+def case_lm(H, sname, mk_strategy, reject, ncalls, raise_at=None, model='SO3-act'):
     name = 'C08/LM/%s/reject=%d/calls=%d%s' % (sname, reject, ncalls, '' if raise_at is None else '/solver-raises-at-%d' % raise_at)
+    if model != 'SO3-act':
+        name += '/model=' + model
 
     def prog(m):
-        mod, params, p, y, ps, ys, info = make_model('SO3-act', m)
+        mod, params, p, y, ps, ys, info = make_model(model, m)
         sol = RecSolver(m, raise_at=raise_at, rot_slices=info['rot_slices'])
         spy = SpyStrategy(mk_strategy(), m)
         opt = pp.optim.LM(mod, solver=sol, strategy=spy, reject=reject)
@@ -97,11 +113,11 @@ def case_lm(H, sname, mk_strategy, reject, ncalls, raise_at=None):
         for c in range(ncalls):
             n0 = len(sol.calls)
             u0 = upd[0]
-            before_terms = m.full_terms(mod.X.data)
-            loss_before = m.full_terms(opt.model.loss(p, y))[0]
+            before_terms = m.full_terms(params[0][4].data)
+            loss_before = m.full_terms(true_loss(mod, p, y))[0]
             ret = opt.step(p, y)
-            after_terms = m.full_terms(mod.X.data)
-            loss_after = m.full_terms(opt.model.loss(p, y))[0]
+            after_terms = m.full_terms(params[0][4].data)
+            loss_after = m.full_terms(true_loss(mod, p, y))[0]
             hist.append(dict(ret=m.full_terms(ret)[0], optloss=m.full_terms(opt.loss)[0], loss_before=loss_before, loss_after=loss_after,
                              before=before_terms, after=after_terms, trials=len(sol.calls) - n0, reject_count=opt.reject_count,
                              reverts=(upd[0] - u0) - (len(sol.calls) - n0 - (1 if (raise_at is not None and n0 <= raise_at < len(sol.calls)) else 0)),
@@ -112,7 +128,7 @@ def case_lm(H, sname, mk_strategy, reject, ncalls, raise_at=None):
         # concrete run with a solver returning bad steps first: checks the bookkeeping clauses numerically
         from symx.engine import Ctx, SymMode
         with SymMode(Ctx()) as m1:
-            mod, params, p, y, ps, ys, info = make_model('SO3-act', m1)
+            mod, params, p, y, ps, ys, info = make_model(model, m1)
 
         class Rec(nn.Module):
             def __init__(s):
@@ -124,7 +140,8 @@ def case_lm(H, sname, mk_strategy, reject, ncalls, raise_at=None):
                 if raise_at is not None and s.n - 1 == raise_at:
                     raise RuntimeError('injected')
                 good = torch.linalg.solve(A, b)
-                return -2.5 * good if (s.n % 3) != 0 else good        # two bad trials, then a good one
+                # two bad trials, then a good one (a short step AGAINST the descent direction raises the loss to first order)
+                return -0.3 * good if (s.n % 3) != 0 else good
         rec = Rec()
         opt = pp.optim.LM(mod, solver=rec, strategy=mk_strategy(), reject=reject)
         bad = []
@@ -137,11 +154,11 @@ def case_lm(H, sname, mk_strategy, reject, ncalls, raise_at=None):
         opt.update_parameter = counting_update
         for c in range(ncalls + 1):
             u0 = upd[0]
-            x0 = mod.X.data.clone()
-            l0 = opt.model.loss(p, y).item()
+            x0 = params[0][4].data.clone()
+            l0 = true_loss(mod, p, y).item()
             n0 = rec.n
             ret = opt.step(p, y)
-            l1 = opt.model.loss(p, y).item()
+            l1 = true_loss(mod, p, y).item()
             trials = rec.n - n0
             if abs(ret.item() - l1) > 1e-9 * (1 + abs(l1)):
                 bad.append('call %d: returned loss %.9g but the loss at the parameters left behind is %.9g' % (c, ret.item(), l1))
@@ -157,12 +174,12 @@ def case_lm(H, sname, mk_strategy, reject, ncalls, raise_at=None):
         pn = H.paths
         hyp = H.hyps_of(ctx)
         to = 10 if H.quick else 90
-        rel = [unit_rel('SO3', xs)]
+        rel = [unit_rel('SO3', xs)] if model == 'SO3-act' else []
         for c, h in enumerate(hist):
             tag = '%s/path%d/call%d' % (name, pn, c)
             H.prove(tag + '/returned==optimizer.loss', hyp, h['ret'] == h['optloss'], replay=replay, key='C08/LM/reported-loss', timeout=to)
-            if not h['raised']:
-                H.prove(tag + '/returned==loss(final params)', hyp, h['ret'] == h['loss_after'], replay=replay, key='C08/LM/reported-loss', timeout=to)
+            # also in a call that the solver ended by raising: "the parameters and the loss as they were before that trial"
+            H.prove(tag + '/returned==loss(final params)', hyp, h['ret'] == h['loss_after'], replay=replay, key='C08/LM/reported-loss', timeout=to)
             H.prove(tag + '/trials<=reject+1', [], z3.BoolVal(h['trials'] <= reject + 1), replay=replay, key='C08/LM/trial-budget')
             rejections = h['reverts']                                # reverted trials in THIS call, counted by the harness
             accepted = rejections < h['trials'] - (1 if h['raised'] else 0)
@@ -233,7 +250,7 @@ def case_gn(H):
 
 def run(H):
     H.assumptions += ['exact real arithmetic', 'steps from the arbitrary solver keep the retraction on its closed-form branch']
-    H.bounds += ['model: SO3 Act residual on 2 points', 'reject in {0,1,2} (thorough 3), 1-2 consecutive step() calls (each call starts from arbitrary symbolic '
+    H.bounds += ['model: SO3 Act residual on 2 points; a Euclidean model with TWO residual outputs and no kernel (the reference loss is computed from the model outputs, not by RobustModel)', 'reject in {0,1,2} (thorough 3), 1-2 consecutive step() calls (each call starts from arbitrary symbolic '
                  'parameters and carries only the cached loss: an inductive step over longer histories)', 'strategy hyper-parameters: 3 (thorough 5) concrete settings',
                  'solver fault injected at solve 0, 1, 2']
     jobs = []
@@ -246,6 +263,7 @@ def run(H):
         jobs.append(lambda: case_lm(H, 'Constant', S3[0][1], 1, 2))
         jobs.append(lambda: case_lm(H, 'Constant', S3[0][1], 1, 1, raise_at=0))
         jobs.append(lambda: case_lm(H, 'Constant', S3[0][1], 1, 1, raise_at=1))
+        jobs.append(lambda: case_lm(H, 'Constant', S3[0][1], 1, 1, model='euclid+two-outputs'))
     else:
         for sname, mk in strategy_objects(False):
             jobs.append(lambda s=sname, k=mk: case_lm(H, s, k, 1, 1))
@@ -258,6 +276,8 @@ def run(H):
             jobs.append(lambda j=j: case_lm(H, 'Constant', S3[0][1], 2, 1, raise_at=j))
     jobs.append(lambda: case_gn(H))
     if not H.quick:
+        jobs.append(lambda: case_lm(H, 'Constant', S3[0][1], 1, 1, model='euclid+two-outputs'))
+        jobs.append(lambda: case_lm(H, 'TrustRegion', S3[2][1], 1, 1, model='so3-algebra+two-outputs'))
         jobs.append(lambda: case_lm(H, 'TrustRegion-b', strategy_objects(False)[4][1], 3, 2))
         jobs.append(lambda: case_lm(H, 'Adaptive-b', strategy_objects(False)[3][1], 3, 1))
     for j in jobs:
